@@ -599,6 +599,11 @@ func (w *kqueue) watchDirectoryFiles(dirPath string) error {
 			}
 		}
 
+		// Named pipes and sockets aren't watched, but do remember that we know
+		// about them or they're reported as new on every directory change.
+		if cleanPath == "" && fi.Mode()&(os.ModeNamedPipe|os.ModeSocket) != 0 {
+			cleanPath = filepath.Clean(path)
+		}
 		w.watches.markSeen(cleanPath, true)
 	}
 
@@ -651,11 +656,14 @@ func (w *kqueue) sendCreateIfNew(path string, fi os.FileInfo) error {
 	}
 
 	// Like watchDirectoryFiles, but without doing another ReadDir.
-	path, err := w.internalWatch(path, fi)
+	cleanPath, err := w.internalWatch(path, fi)
 	if err != nil {
 		return err
 	}
-	w.watches.markSeen(path, true)
+	if cleanPath == "" && fi.Mode()&(os.ModeNamedPipe|os.ModeSocket) != 0 {
+		cleanPath = filepath.Clean(path)
+	}
+	w.watches.markSeen(cleanPath, true)
 	return nil
 }
 
